@@ -65,10 +65,25 @@ def _f26b(da):
     return differ, "optimize(optimize(e)) renames the root" if differ else "idempotent"
 
 
+def _f16b(da):
+    x = da.from_array(np.arange(25).reshape(5, 5), chunks=((1, 1, 3), (1,) * 5))
+    return _raises(lambda: da.take(da.broadcast_to(x, (1, 5, 5)), [-4, -1, -4, 3, 1], axis=1).compute(scheduler="sync"), "Missing dependency")
+
+
+def _f25b(da):
+    y = da.from_array(np.zeros((5, 4, 0)), chunks=((3, 2), (4,), (0,))).max(axis=1).rechunk(((1, 1, 3), (0,)))
+    got = y.compute(scheduler="sync").shape
+    return got != tuple(y.shape), f"computed shape {got}, advertised {tuple(y.shape)}"
+
+
 # (property, id, reproducer, signature — must contain the finding's `match`, text)
 TABLE = [
     ("C01", "F24", _f24, {"class": "raises", "error": "ValueError: operands could not be br"}, "broadcast_to(flip(diff(x))) raises"),
     ("C01", "F27", _f27, {"class": "raises", "error": "ValueError: #Chunks do not add up to"}, "elementwise broadcasting over a (1, 0) layout raises"),
+    ("C01", "F16b", _f16b, {"class": "raises", "root_op": "take", "has_broadcast_to": True, "error": "ValueError: Missing dependency #geti"},
+     "take of a broadcast_to raises 'Missing dependency'"),
+    ("C03", "F25b", _f25b, {"class": "block-shape", "zero_length_axis": True, "reduce_below_root": True},
+     "max over an array with a zero-length other axis yields blocks of extent 1"),
     ("C28", "F29", _f29, {"class": "unknown-chunks", "problem": "`max` after compute_chunk_sizes raises V"}, "max over a zero-size block after compute_chunk_sizes raises"),
     ("C28", "F30", _f30, {"class": "unknown-chunks", "problem": "`reshape` after compute_chunk_sizes rais"}, "reshape of an array with a zero-size block raises"),
     ("C05", "C05-C", _c05c, {"class": "follow-on-raises", "entry": "x.optimize"}, "an operation applied to x.optimize() raises KeyError at lowering"),
